@@ -60,6 +60,10 @@ def m_issubclass(it, a, b):
 
 
 def m_getattr(it, o, name, *default):
+    if isinstance(name, SStr):
+        # attribute read with a name that is only known symbolically: the value of an arbitrary attribute (obligations judge the path condition here)
+        it.event("getattr-symbolic", o, name)
+        return Opaque("attr")
     if not isinstance(name, str):
         raise Unsupported("getattr with symbolic name")
     return it.getattr_(o, name, *default) if default else it.getattr_(o, name)
@@ -140,7 +144,7 @@ def m_callable(it, v):
     if isinstance(v, PObj):
         return v.cls.find("__call__") is not None
     if isinstance(v, Opaque):
-        raise Unsupported("callable() of opaque value")
+        return SBool(z3.Function("py_callable", z3.DeclareSort("PyVal"), z3.BoolSort())(v.t))
     if isinstance(v, Sym):
         return False
     return callable(v)
